@@ -71,11 +71,10 @@ impl Slicing {
             ),
             _ => return Ok(lhs.instruction),
         };
-        if let (Some(index), _, _) | (_, Some(index), _) | (_, _, Some(index)) =
-            (&start, &stop, &step)
-            && index.return_type() != Type::Int
-        {
-            return Err(Error::CannotIndexWith(index.str.clone()));
+        for index in [&start, &stop, &step].into_iter().flatten() {
+            if index.return_type() != Type::Int {
+                return Err(Error::CannotIndexWith(index.str.clone()));
+            }
         }
 
         Ok(Self {
